@@ -69,6 +69,8 @@ def init_strategy(draw, tier="quick"):
         raw["rules"].append(["S", []])
     raw["rules"] = draw(gen.weights(raw, regime))
     raw["regime"] = regime
+    # terminals need not be strings: integer alphabets, also distinct integers with equal hashes
+    raw = gen.resymbol(raw, draw(st.sampled_from(["str"] * 6 + ["int0", "intsparse", "hashcollide", "hashcollide"])))
     kind = draw(st.sampled_from(KINDS_FLOAT if regime == "FLOAT" else KINDS_BOOL))
     # a cold 520-token context costs minutes on the cubic CKY parser: thorough tier only, one history in 400
     cky_long = tier == "thorough" and draw(st.integers(0, 399)) == 0
